@@ -1648,6 +1648,8 @@ class sptensor:
             old_modes = np.arange(0, self.ndims, dtype=int)
             keep_modes = np.array([], dtype=int)
         else:
+            # validation only (range, repeats): the order given is kept
+            tt_dimscheck(self.ndims, dims=old_modes)
             keep_modes = np.setdiff1d(np.arange(0, self.ndims, dtype=int), old_modes)
 
         shapeArray = np.array(self.shape)
